@@ -180,7 +180,7 @@ def run_property(P, pid, tier, seed, replay):
     if okm and okr and runs and not replay:
         k = getattr(P, "XCHECK", 120)
         pref = "D " if getattr(P, "RELEASE", False) else ""
-        pairs = [(pref + l, m) for l, m in zip(lines[:k], runs[0][2][:k]) if m is not None and len(l) < 6000]
+        pairs = [(pref + l, m) for l, m in zip(lines[:3 * k], runs[0][2][:3 * k]) if m is not None and len(l) < 4000 and len(m) < 4000][:k]
         xc_ok, xc_n, xout = vlib.cross_check_in_coq(pid, pairs)
         if not xc_ok:
             breaks.append({"kind": "extraction-crosscheck", "what": "vm_compute inside coqc disagrees with the extracted model",
